@@ -257,7 +257,9 @@ class ScriptRunner:
             elif kind in ('embed', 'embed2'):
                 # 'embed2' is a second RustEmbed type (own folder) in the same process
                 sets = self.__dict__.setdefault('embed_all', {})
-                mine = sets.setdefault(kind, ex.hooks.setdefault('embed_files', {}) if kind == 'embed' else {})
+                # (a folder without any file has no embedfile line: it must not inherit the other type's set from the hook)
+                fresh = kind != 'embed' or bool(self.__dict__.get('embed_sets')) or 'embed2' in sets
+                mine = sets.setdefault(kind, {} if fresh else ex.hooks.setdefault('embed_files', {}))
                 ex.hooks['embed_files'] = mine
                 o = w.guard(lambda: w.F('path::VfsPath::new', [w.F('EmbeddedFS::new', [])]))
                 self.last = o
